@@ -138,6 +138,8 @@ class Scheduler:
         self.clock_deviations = 0
         self.free_cost = 0
         self.policy = None                  # optional default-choice policy beyond the replayed prefix (periodic schedules)
+        self.intra_cost = 1                 # cost of a preemption inside a source line (instruction mode); 1.01 with bound 2.015
+        #                                     = "at most one of the two preemptions may be inside a line"
         self.fair_stay_cost = 0             # cost of not yielding at a fairness point (1 in round-robin quantum harnesses)
         self.lock_points = True             # False: uncontended lock operations are not scheduling points
         self.on_point = None                # harness invariant evaluated at every scheduling point in the window
@@ -188,8 +190,9 @@ class Scheduler:
         return self._next_wake() is None
 
     # ----------------------------------------------------------- choosing
-    def _options(self, cur_enabled):
+    def _options(self, cur_enabled, label=""):
         cur = self.current
+        pre = self.intra_cost if label.startswith("I:") else 1
         others = [t for t in self.threads if t is not cur and self._enabled(t)]
         opts, costs = [], []
         if cur_enabled:
@@ -209,7 +212,7 @@ class Scheduler:
             else:
                 opts.append(cur); costs.append(0)
                 for t in others:
-                    opts.append(t); costs.append(1)
+                    opts.append(t); costs.append(pre)
         else:
             for k, t in enumerate(others):
                 # the running thread blocked/finished: the switch is free; picking another than the default
@@ -249,7 +252,7 @@ class Scheduler:
 
     def _dispatch(self, cur_enabled, label):
         """pick who runs next; returns the VThread (maybe the current one) or None"""
-        opts, costs = self._options(cur_enabled)
+        opts, costs = self._options(cur_enabled, label)
         if not opts:
             return None
         ch = self._choose(opts, costs, label)
@@ -751,8 +754,7 @@ def _on_instr(code, off):
     s = ACTIVE
     offs = _shared_offsets.get(code)
     if offs is None:
-        offs = _shared_offsets[code] = {i.offset: i.opname for i in dis.get_instructions(code)
-                                        if i.opname in SHARED_OPS}
+        offs = _shared_offsets[code] = _classify_offsets(code)
     op = offs.get(off)
     if op is None:
         return sys.monitoring.DISABLE
@@ -761,7 +763,22 @@ def _on_instr(code, off):
     me = s.by_ident.get(_get_ident())
     if me is None:
         return
-    s.point("I:%s:%d:%s" % (code.co_name, off, op))
+    # "I:" = inside a source line, "J:" = the first shared-access instruction of a source line
+    s.point("%s:%s:%d:%s" % (op[0], code.co_name, off, op[1]))
+
+
+def _classify_offsets(code):
+    """offset -> ('J' | 'I', opname) for the shared-access-capable instructions: 'J' marks the first one of each source
+    line (a preemption there is what line granularity also offers), 'I' the others (preemptions inside a line)"""
+    out = {}
+    first = True
+    for i in dis.get_instructions(code):
+        if i.starts_line is not None:
+            first = True
+        if i.opname in SHARED_OPS:
+            out[i.offset] = ("J" if first else "I", i.opname)
+            first = False
+    return out
 
 
 def code_objects_of(*objs):
